@@ -473,11 +473,14 @@ class union_generator(_composite_generator_base):
         def setter(self, discriminator_name_or_value):
             for field in self._descriptor:
                 if discriminator_name_or_value in (field.name, field.discriminator):
-                    if field != self._discriminated:
+                    if field is not self._discriminated:
                         self._discriminated = field
                         self._fields = {}
                     return
-            raise ProphyError("unknown discriminator: {!r}".format(discriminator_name_or_value))
+            shown = discriminator_name_or_value
+            if isinstance(shown, (int, long)) and abs(shown) >= (1 << 128):
+                shown = "a number of %d bits" % shown.bit_length()
+            raise ProphyError("unknown discriminator: {!r}".format(shown))
 
         setattr(cls, "discriminator", property(getter, setter))
 
